@@ -10,27 +10,27 @@ open Fca Fca.Poset Fca.Poset.Fresh Fca.SemiLattice.Spec
 section
 variable {α : Type} [DecidableEq α] {leq : α → α → Bool} {ord : List Nat → List Nat} {U : α → Prop}
 
-/-- one side of the constructor check, with the presence the scan leaves behind -/
+/-- one side of the constructor check changes the poset part by the `POSet.tops / bottoms` scan only -/
 theorem ctorSide_scan {E : List α} (hpo : IdxPO leq E) {G : Ghost} {c : Bool} {s : SL α}
     (h : InvB leq E G c s.p) (d : Dir) (hex : ∃ t, isExt leq d E t = true) :
-    ∃ s1, ctorSide leq d c s = (s1, .ok ()) ∧
-      InvB leq E (G.addClosedP d (fun k => k < E.length)) c s1.p ∧ s1.cls = s.cls := by
+    ∃ s1, ctorSide leq d c s = (s1, .ok ()) ∧ s1.p = (extremesE leq d s.p).1 ∧ s1.cls = s.cls := by
   obtain ⟨t, ht⟩ := hex
-  obtain ⟨p', st, hl, h1, hst⟩ := lift_sat (s := s) (extremesE_spec' hpo h d)
+  obtain ⟨p', st, hm, h1, hst⟩ := extremesE_spec' hpo h d
+  have hl : ML.lift (extremesE leq d) s = ({ s with p := p' }, .ok st) := by rw [lift_apply, hm]
   rw [extremes_of_isExt hpo ht] at hst
   subst hst
   unfold ctorSide
-  rw [bind_ok hl]
+  rw [bind_ok hl, hm]
   cases c
-  · exact ⟨_, rfl, h1, rfl⟩
+  · exact ⟨_, rfl, rfl, rfl⟩
   · refine ⟨_, rfl, ?_, ?_⟩
-    · simp only [List.head?_cons, p_setCache]; exact h1
+    · simp only [List.head?_cons, p_setCache]
     · simp only [List.head?_cons, cls_setCache]
 
-/-- the constructor, when it accepts, leaves the closed relation of every element cached on every side the
-    class overrides -/
-theorem ctor_complete (hpoU : PO leq U) (cls : Cls) (E : List α) (c : Bool) (hnd : E.Nodup) (hU : ∀ a ∈ E, U a)
-    {s : SL α} (hs : ctor leq cls E c = .ok s) : Complete s := by
+/-- the constructor, when it accepts, leaves caches in which a cached direct relation implies the cached closed
+    relation (it caches closed relations only) -/
+theorem ctor_dic (hpoU : PO leq U) (cls : Cls) (E : List α) (c : Bool) (hnd : E.Nodup) (hU : ∀ a ∈ E, U a)
+    {s : SL α} (hs : ctor leq cls E c = .ok s) : DIC E.length E.length s.p := by
   have hpo : IdxPO leq E := idxPO_of hpoU hnd hU
   obtain ⟨hyes, hno⟩ := ctor_spec (leq := leq) hpoU cls E c hnd hU
   have hP : E ≠ [] ∧ HasExtremes leq cls E := by
@@ -43,44 +43,36 @@ theorem ctor_complete (hpoU : PO leq U) (cls : Cls) (E : List α) (c : Bool) (hn
     InvB.ofOk rfl rfl (fun _ a b r h => by simp [init] at h)
       (fun _ d k v h => by cases d <;> simp [init, St.closed] at h)
       (fun _ d k v h => by cases d <;> simp [init, St.direct] at h)
-  -- the final state of the run, with its ghost promises
-  have key : ∃ s' G, ctor leq cls E c = .ok s' ∧ InvB leq E G c s'.p ∧ s'.cls = cls ∧
-      ∀ d, cls.has d = true → ∀ k, k < E.length → G.closedP d k := by
+  have d0 : DIC E.length E.length (init E c) := fun d k _ _ hp => by cases d <;> simp [init, St.direct] at hp
+  have key : ∃ s', ctor leq cls E c = .ok s' ∧ DIC E.length E.length s'.p := by
     cases cls with
     | upper =>
-      obtain ⟨s1, hr, h1, hc1⟩ := ctorSide_scan (c := c) (s := ⟨.upper, init E c, none, none⟩) hpo hinit .anc
+      obtain ⟨s1, hr, hp1, _⟩ := ctorSide_scan (c := c) (s := ⟨.upper, init E c, none, none⟩) hpo hinit .anc
         (hP.2 .anc rfl)
-      refine ⟨s1, _, by simp only [ctor, hlen, ↓reduceIte, hr], h1, hc1, fun d hd k hk => ?_⟩
-      cases d
-      · cases hd
-      · exact Or.inr ⟨rfl, hk⟩
+      exact ⟨s1, by simp only [ctor, hlen, ↓reduceIte, hr], by rw [hp1]; exact (keeps_extremesE _ _ _).state d0⟩
     | lower =>
-      obtain ⟨s1, hr, h1, hc1⟩ := ctorSide_scan (c := c) (s := ⟨.lower, init E c, none, none⟩) hpo hinit .desc
+      obtain ⟨s1, hr, hp1, _⟩ := ctorSide_scan (c := c) (s := ⟨.lower, init E c, none, none⟩) hpo hinit .desc
         (hP.2 .desc rfl)
-      refine ⟨s1, _, by simp only [ctor, hlen, ↓reduceIte, hr], h1, hc1, fun d hd k hk => ?_⟩
-      cases d
-      · exact Or.inr ⟨rfl, hk⟩
-      · cases hd
+      exact ⟨s1, by simp only [ctor, hlen, ↓reduceIte, hr], by rw [hp1]; exact (keeps_extremesE _ _ _).state d0⟩
     | lattice =>
-      obtain ⟨s1, hr, h1, hc1⟩ := ctorSide_scan (c := c) (s := ⟨.lattice, init E c, none, none⟩) hpo hinit .desc
+      obtain ⟨s1, hr, hp1, _⟩ := ctorSide_scan (c := c) (s := ⟨.lattice, init E c, none, none⟩) hpo hinit .desc
         (hP.2 .desc rfl)
-      obtain ⟨s2, hr2, h2, hc2⟩ := ctorSide_scan (c := c) (s := s1) hpo h1 .anc (hP.2 .anc rfl)
+      have h1 : InvB leq E Ghost.none c s1.p := by
+        obtain ⟨p', st, hm, h1, _⟩ := extremesE_spec (ord := id) hpo (fun l => List.Perm.refl l) hinit .desc
+        rw [hp1]
+        show InvB leq E Ghost.none c (extremesE leq Dir.desc (init E c)).1
+        rw [hm]; exact h1
+      have d1 : DIC E.length E.length s1.p := by rw [hp1]; exact (keeps_extremesE _ _ _).state d0
+      obtain ⟨s2, hr2, hp2, _⟩ := ctorSide_scan (c := c) (s := s1) hpo h1 .anc (hP.2 .anc rfl)
       have hm : (do ctorSide leq .desc c; ctorSide leq .anc c : ML α Unit)
           ⟨.lattice, init E c, none, none⟩ = (s2, .ok ()) := (bind_ok hr).trans hr2
-      refine ⟨s2, _, ?_, h2, hc2.trans hc1, fun d hd k hk => ?_⟩
-      · simp only [ctor, hlen, ↓reduceIte]
-        rw [hm]
-      · cases d
-        · exact Or.inl (Or.inr ⟨rfl, hk⟩)
-        · exact Or.inr ⟨rfl, hk⟩
-  obtain ⟨s', G, hs', hinv, hcls, hG⟩ := key
+      refine ⟨s2, ?_, by rw [hp2]; exact (keeps_extremesE _ _ _).state d1⟩
+      simp only [ctor, hlen, ↓reduceIte]
+      rw [hm]
+  obtain ⟨s', hs', hd⟩ := key
   rw [hs] at hs'
   cases hs'
-  intro hu d hd k hk
-  have hc : c = true := by rw [← hinv.flag]; exact hu
-  rw [hinv.elems] at hk
-  rw [hcls] at hd
-  exact hinv.closedPres hc d k (hG d hd k hk)
+  exact hd
 
 theorem ctor_invAll (hpoU : PO leq U) (cls : Cls) (E : List α) (c : Bool) (hnd : E.Nodup) (hU : ∀ a ∈ E, U a)
     {s : SL α} (hs : ctor leq cls E c = .ok s) : InvAll leq s := by
@@ -93,27 +85,15 @@ theorem ctor_invAll (hpoU : PO leq U) (cls : Cls) (E : List α) (c : Bool) (hnd 
   obtain ⟨s', hs', h1, h2, h3, h4, h5⟩ := hyes hP
   rw [hs] at hs'
   cases hs'
-  exact ⟨h4, by rw [h2]; exact hnd, by rw [h2, h3]; exact h5, ctor_complete hpoU cls E c hnd hU hs⟩
+  exact ⟨h4, by rw [h2]; exact hnd, by rw [h2, h3]; exact h5, fun _ => by rw [h2]; exact ctor_dic hpoU cls E c hnd hU hs⟩
 
 /-! ### histories -/
 
-/-- the history stays in the range of the full step theorem: every operation is `opOkSL` when it is executed and
-    none is `add(new, fill_up_cache=False)` on a caching instance (specification level: threaded through `nextSL`) -/
+/-- every operation of the history is in the documented range (`opOkSL`) when it is executed (specification
+    level: the element list is threaded through `nextSL`) -/
 def histOk (leq : α → α → Bool) (cls : Cls) (c : Bool) : List α → List (OpSL α) → Bool
   | _, [] => true
-  | E, op :: ops =>
-    opOkSL cls E c op &&
-    !(match op with
-      | .op (.add e false) => c && !(decide (e ∈ E))
-      | _ => false) &&
-    histOk leq cls c (nextSL leq cls E op) ops
-
-theorem wipes_eq (s : SL α) (op : OpSL α) :
-    wipes s op = (match op with
-      | .op (.add e false) => s.p.useCache && !(decide (e ∈ s.p.elems))
-      | _ => false) := by
-  unfold wipes
-  split <;> simp_all
+  | E, op :: ops => opOkSL cls E c op && histOk leq cls c (nextSL leq cls E op) ops
 
 /-- whole histories: outputs are the specified ones, the complete invariant holds at the end -/
 theorem runSL_full (hpoU : PO leq U) (hord : ∀ l, (ord l).Perm l) (ops : List (OpSL α)) {s : SL α}
@@ -125,10 +105,9 @@ theorem runSL_full (hpoU : PO leq U) (hord : ∀ l, (ord l).Perm l) (ops : List 
   induction ops generalizing s with
   | nil => exact ⟨hA, rfl, rfl, rfl, rfl⟩
   | cons op ops ih =>
-    simp only [histOk, Bool.and_eq_true, Bool.not_eq_true'] at hok
-    obtain ⟨⟨hok1, hw⟩, hok2⟩ := hok
+    simp only [histOk, Bool.and_eq_true] at hok
+    obtain ⟨hok1, hok2⟩ := hok
     obtain ⟨g1, g2, g3, g4, g5⟩ := stepSL_full (ord := ord) hpoU hord hA hU op hok1 (hin op List.mem_cons_self)
-      (by rw [wipes_eq]; exact hw)
     have := ih (s := (stepSL leq ord s op).1) g1
       (by rw [g3]; exact nextSL_U hU op (hin op List.mem_cons_self))
       (fun o ho => hin o (List.mem_cons_of_mem _ ho)) (by rw [g3, g4, g5]; exact hok2)
@@ -167,10 +146,9 @@ theorem noInternalError_of_histOk (hpoU : PO leq U) (hord : ∀ l, (ord l).Perm 
   induction ops generalizing s with
   | nil => trivial
   | cons op ops ih =>
-    simp only [histOk, Bool.and_eq_true, Bool.not_eq_true'] at hok
-    obtain ⟨⟨hok1, hw⟩, hok2⟩ := hok
+    simp only [histOk, Bool.and_eq_true] at hok
+    obtain ⟨hok1, hok2⟩ := hok
     obtain ⟨g1, g2, g3, g4, g5⟩ := stepSL_full (ord := ord) hpoU hord hA hU op hok1 (hin op List.mem_cons_self)
-      (by rw [wipes_eq]; exact hw)
     refine ⟨fun hm e he => ?_, ih (s := (stepSL leq ord s op).1) g1
       (by rw [g3]; exact nextSL_U hU op (hin op List.mem_cons_self))
       (fun o ho => hin o (List.mem_cons_of_mem _ ho)) (by rw [g3, g4, g5]; exact hok2)⟩
